@@ -34,9 +34,9 @@ Section FLh.
     flw p cp N (FCall f args ret).
   Proof.
     intros N f args ret IHN HA HT.
-    intros n Hn G cur cont st s st' e ce k Hwc Hf Hkd Hws Hnc Hl HG Hbn Hni H8 Hsh He HCK.
+    intros n Hn G cur cont st s st' e ce k Hwc Hf Hkd Hws Hl HG Hbn Hni Hsh He HCK.
     rewrite wc_unfold in Hwc. apply wc_call_inv in Hwc. destruct Hwc as [args' [ret0 [Hargs [Eret Es]]]]. subst s.
-    simpl in Hf, Hkd, Hws, Hnc.
+    simpl in Hf, Hkd, Hws.
     apply andb_prop in Hf. destruct Hf as [Hf Hfa]. apply andb_prop in Hf. destruct Hf as [Hnm Hck].
     apply negb_true_iff in Hnm. apply String.eqb_neq in Hnm.
     change (tkind p (FCall f args ret)) with (f_is_codata_o p ret) in *.
@@ -49,7 +49,6 @@ Section FLh.
              (AfCall f) (FinCall (new_id f)) k [] [] Hargs Hfa Hkd).
     - intros E. discriminate E.
     - exact Hws.
-    - exact Hnc.
     - exact Hl.
     - exact HG.
     - exact Hbn.
@@ -78,17 +77,17 @@ Section FLh.
     forall n, (n <= N)%nat -> forall G cur st args' st' e ce k m,
     subst_with (fun y => cmp (codata_of p) cur false y) args st = Ok (args', st') ->
     forallb (darg_ok p) args = true -> forallb (arg_kd p) args = true ->
-    forallb (ws_arg G) args = true -> forallb nocap args = true ->
+    forallb (ws_arg G) args = true ->
     lifted_ok cp st' -> Gused G st -> incl (flat_map bnd args) (st_used_vars st) ->
     erel p cp n G (Sof (fva args')) e ce ->
     Kb p cp n k (KRet m) ->
     sim p cp n (FArgs [] args e (AfCtor x) k) (cargs_res cp [] args' ce (FinXtorP (new_id x) m)).
   Proof.
-    intros N x args HA HT n Hn G cur st args' st' e ce k m Hargs Hda Hkd Hws Hnc Hl HG Hbn He HK.
+    intros N x args HA HT n Hn G cur st args' st' e ce k m Hargs Hda Hkd Hws Hl HG Hbn He HK.
     destruct (darg_props args Hda) as [Hfa Hpo].
     rewrite <- (app_nil_r args').
     apply (args_sim p cp Hcod N args HA HT n Hn true G cur st args' st' e ce [] (AfCtor x) (FinXtorP (new_id x) m) k [] []
-             Hargs Hfa Hkd (fun _ => Hpo) Hws Hnc Hl HG Hbn He).
+             Hargs Hfa Hkd (fun _ => Hpo) Hws Hl HG Hbn He).
     intros j Hj new new' Hnew Hkinds.
     destruct j as [|j1]; [apply sim_zero|].
     eapply sim_fstep; [simpl; rewrite rev_append_nil_twice; reflexivity|].
@@ -102,40 +101,42 @@ Section FLh.
     flw p cp N (FCtor x args ty) /\ flc p cp N (FCtor x args ty).
   Proof.
     intros N x args ty HA HT. split.
-    - intros n Hn G cur cont st s st' e ce k Hwc Hf Hkd Hws Hnc Hl HG Hbn Hni H8 Hsh He HCK.
+    - intros n Hn G cur cont st s st' e ce k Hwc Hf Hkd Hws Hl HG Hbn Hni Hsh He HCK.
       rewrite wc_unfold in Hwc. apply wc_ctor_inv in Hwc. destruct Hwc as [args' [ty0 [Hargs [Ety Es]]]]. subst s.
-      simpl in Hf, Hkd, Hws, Hnc. apply andb_prop in Hkd. destruct Hkd as [Hkd Hkty]. apply negb_true_iff in Hkty.
+      simpl in Hf, Hkd, Hws. apply andb_prop in Hkd. destruct Hkd as [Hkd Hkty]. apply negb_true_iff in Hkty.
       assert (Hkind : tkind p (FCtor x args ty) = false) by (unfold tkind; simpl; exact Hkty).
       rewrite Hkind in *.
       destruct n as [|n1]; [apply sim_zero|].
       eapply sim_fstep; [reflexivity|]. apply sim_cstep. simpl. rewrite start_args_eq.
-      apply (ctor_core N x args HA HT n1 ltac:(lia) G cur st args' st' e ce k (MCutK cont ce) Hargs Hf Hkd Hws Hnc Hl HG Hbn).
+      apply (ctor_core N x args HA HT n1 ltac:(lia) G cur st args' st' e ce k (MCutK cont ce) Hargs Hf Hkd Hws Hl HG Hbn).
       + eapply erel_weaken; [exact He | | lia]. apply Sof_incl. intros bb Hx. apply fvs_cut. left. exact Hx.
       + eapply Kb_mono; [eapply (CK_mcutk p cp (S n1)); eauto | lia].
         intros bb Hbb. apply Sof_in. apply fvs_cut. right. exact Hbb.
-    - intros n Hn G cur ty' st c st' e ce k m Hc Hf Hkd Hk0 Hws Hnc Hl HG Hbn Hty He HK.
+    - intros n Hn G cur ty' st c st' e ce k m Hc Hf Hkd Hk0 Hws Hl HG Hbn Hty He HK.
       rewrite cmp_unfold in Hc. apply cmp_ctor_inv in Hc. destruct Hc as [args' [ty0 [Hargs [Ety Ec]]]]. subst c.
-      simpl in Hf, Hkd, Hws, Hnc. apply andb_prop in Hkd. destruct Hkd as [Hkd Hkty].
+      simpl in Hf, Hkd, Hws. apply andb_prop in Hkd. destruct Hkd as [Hkd Hkty].
       destruct n as [|n1]; [apply sim_zero|].
       eapply sim_fstep; [reflexivity|]. apply sim_cstep. simpl. rewrite start_args_eq.
-      apply (ctor_core N x args HA HT n1 ltac:(lia) G cur st args' st' e ce k m Hargs Hf Hkd Hws Hnc Hl HG Hbn).
+      apply (ctor_core N x args HA HT n1 ltac:(lia) G cur st args' st' e ce k m Hargs Hf Hkd Hws Hl HG Hbn).
       + eapply erel_weaken; [exact He | | lia]. intros z Hz. exact Hz.
       + eapply Kb_mono; [exact HK | lia].
   Qed.
 
   (* ---------- case ---------- *)
-  Lemma fl_case : forall N scrut targs cls ty,
+  Lemma fl_case_in : forall N scrut targs cls ty,
     flw p cp N scrut -> Forall (fun c => flw p cp N (clause_body c)) cls ->
-    flw p cp N (FCase scrut targs cls ty).
+    flw_in p cp N (FCase scrut targs cls ty)
+      (flat_map (fun c => match c with FClause _ _ _ ctx _ => fvars ctx end) cls)
+      (fun cur => wc_case cur (wc (codata_of p) cur false scrut) (fterm_type scrut) (List.length cls)
+                    (fun cont' => clauses_with (fun b => wc (codata_of p) cur false b) cont' cls)).
   Proof.
     intros N scrut targs cls ty Hscrut Hcls.
-    intros n Hn G cur cont st s st' e ce k Hwc Hf Hkd Hws Hnc Hl HG Hbn Hni H8 Hsh He HCK.
-    rewrite wc_unfold in Hwc. apply wc_case_inv in Hwc.
+    intros n Hn G cur cont st s st' e ce k Hwc H8 Hf Hkd Hws Hl HG Hbn Hni Hsh He HCK.
+    apply wc_case_inv in Hwc.
     destruct Hwc as [cont1 [st0 [cls' [st1 [sty0 [Hshare [Hclauses [Esty Hwscrut]]]]]]]].
-    simpl in Hf, Hkd, Hws, Hnc.
+    simpl in Hf, Hkd, Hws.
     apply andb_prop in Hf. destruct Hf as [Hf Hfc]. apply andb_prop in Hf. destruct Hf as [Hfs Hdt].
     apply andb_prop in Hws. destruct Hws as [Hws Hwcl].
-    apply andb_prop in Hnc. destruct Hnc as [Hnn Hncc]. apply andb_prop in Hnn. destruct Hnn as [Hdisj Hns].
     apply andb_prop in Hkd. destruct Hkd as [Hkd Hkcl]. apply andb_prop in Hkd. destruct Hkd as [Hks Hkty].
     apply negb_true_iff in Hkty.
     assert (Hkind : tkind p (FCase scrut targs cls ty) = false) by (unfold tkind; simpl; exact Hkty).
@@ -164,18 +165,13 @@ Section FLh.
     assert (Hbs : incl (bnd scrut) (st_used_vars st)) by (intros z Hz; apply Hbn; simpl; apply in_or_app; left; exact Hz).
     destruct n as [|n1]; [apply sim_zero|].
     eapply sim_fstep; [reflexivity|].
-    apply (Hscrut n1 ltac:(lia) G cur kcont st1 s st' e ce (FkCase cls e k) Hwscrut Hfs Hks Hws Hns Hl).
+    apply (Hscrut n1 ltac:(lia) G cur kcont st1 s st' e ce (FkCase cls e k) Hwscrut Hfs Hks Hws Hl).
     - eapply Gused_grows; eauto.
     - eapply incl_grows; eauto.
     - intros x Hx. apply in_cnames_inv in Hx. destruct Hx as [bb [Hbb E]]. subst x.
       destruct (Hsrc bb Hbb) as [Hg|Hc].
       + destruct (inG_used G _ bb st HG Hg) as [y [Ey Hy]]. exists y. split; [exact Ey|]. eapply grows_vars_incl; eauto.
       + eapply names_in_grows; [exact Hni | exact G1 | apply in_cnames; exact Hc].
-    - intros x Hx Hin. apply in_cnames_inv in Hin. destruct Hin as [bb [Hbb E]].
-      destruct (Hsrc bb Hbb) as [Hg|Hc].
-      + destruct (inG_name _ _ _ Hg) as [y [Ey Hy]]. rewrite E in Ey. apply new_id_inj in Ey. subst y.
-        exact (disj_spec _ _ Hdisj x Hx Hy).
-      + apply (H8 x); [simpl; apply in_or_app; left; exact Hx|]. rewrite <- E. apply in_cnames. exact Hc.
     - rewrite Hkscrut. simpl. split; [reflexivity | exact Hcd].
     - eapply erel_weaken; [exact He | | lia]. intros x Hx. exact Hx.
     - rewrite Hkscrut. split.
@@ -197,9 +193,9 @@ Section FLh.
           [|eapply sim_stuck; simpl; unfold fselect; rewrite Efc; simpl; rewrite Ebind; reflexivity].
         eapply sim_fstep; [simpl; unfold fselect; rewrite Efc; simpl; rewrite Ebind; reflexivity|].
         (* what the fragment says about this clause *)
-        rewrite forallb_forall in Hfc, Hwcl, Hncc, Hkcl.
-        specialize (Hfc _ Hin). specialize (Hwcl _ Hin). specialize (Hncc _ Hin). specialize (Hkcl _ Hin).
-        simpl in Hfc, Hwcl, Hncc, Hkcl.
+        rewrite forallb_forall in Hfc, Hwcl, Hkcl.
+        specialize (Hfc _ Hin). specialize (Hwcl _ Hin). specialize (Hkcl _ Hin).
+        simpl in Hfc, Hwcl, Hkcl.
         apply andb_prop in Hfc. destruct Hfc as [Hfc Hfb]. apply andb_prop in Hfc. destruct Hfc as [_ Hprd].
         apply andb_prop in Hkcl. destruct Hkcl as [Hkb Hkb0]. apply negb_true_iff in Hkb0.
         destruct (kinds_of_fields p cp Hcod ctx fields e e1 Hd Hprd Ebind) as [Hk1 Hk2].
@@ -229,7 +225,7 @@ Section FLh.
         simpl. unfold select. rewrite Ecf. cbn [cl_ctx cl_body]. rewrite Hcb.
         rewrite Forall_forall in Hcls. specialize (Hcls _ Hin). simpl in Hcls.
         rewrite <- Hkb0 in Hsh1, HCK1.
-        apply (Hcls j1 ltac:(lia) (compile_ctx ctx ++ G) cur cont1 sta body' stb e1 ce1 k Hwb Hfb Hkb Hwcl Hncc).
+        apply (Hcls j1 ltac:(lia) (compile_ctx ctx ++ G) cur cont1 sta body' stb e1 ce1 k Hwb Hfb Hkb Hwcl).
         * eapply lifted_ok_grows; [exact Lst1 | exact Hgb].
         * intros bb Hbb. apply in_app_or in Hbb. destruct Hbb as [Hbb|Hbb].
           -- destruct (Hcv (cbvar bb) (in_map cbvar _ _ Hbb)) as [y [Ey Hy]]. exists y. split; [exact Ey|].
@@ -238,18 +234,26 @@ Section FLh.
         * eapply incl_grows; [|eapply grows_trans; [exact Hg0 | exact Hga]]. intros y Hy. apply Hbn. apply Hbody_bnd. exact Hy.
         * intros x0 Hx0. apply in_cnames_inv in Hx0. destruct Hx0 as [bb [Hbb E]]. subst x0.
           eapply names_in_grows; [exact Hni | eapply grows_trans; [exact Hg0 | exact Hga] | apply in_cnames; apply Hsub; exact Hbb].
-        * intros y Hy Hiny. apply (H8 y (Hbody_bnd y Hy)).
-          apply in_cnames_inv in Hiny. destruct Hiny as [bb [Hbb E]]. rewrite <- E. apply in_cnames. apply Hsub. exact Hbb.
         * exact Hsh1.
         * exact Hr.
         * eapply CK_transfer; [exact Hsh1 | exact HCK1 | | lia].
           intros x0 Hxc Hxb.
           assert (Hn0 : ~ In x0 (cvars (compile_ctx ctx))).
           { intros Hc0. destruct (Hcv x0 Hc0) as [y [Ey Hy]]. subst x0.
-            apply (H8 y (Hctx_bnd y Hy)).
+            apply (H8 y).
+            { apply in_flat_map. exists (FClause pl x names ctx body). split; [exact Hin | exact Hy]. }
             apply in_cnames_inv in Hxc. destruct Hxc as [bb [Hbb E]]. rewrite <- E. apply in_cnames. apply Hsub. exact Hbb. }
           pose proof (Hout x0 Hxb Hn0) as Hc0.
           split; [apply Hall; exact Hc0|]. rewrite (Hlk x0 Hn0). apply Ha. exact Hc0.
+  Qed.
+  Lemma fl_case : forall N scrut targs cls ty,
+    flw p cp N scrut -> Forall (fun c => flw p cp N (clause_body c)) cls ->
+    flw p cp N (FCase scrut targs cls ty).
+  Proof.
+    intros N scrut targs cls ty Hscrut Hcls.
+    eapply (fl_guard p cp Hcod); [| |apply fl_case_in; assumption].
+    - intros cur cont. rewrite wc_unfold. reflexivity.
+    - reflexivity.
   Qed.
 
   (* ---------- new ---------- *)
@@ -306,12 +310,11 @@ Section FLh.
     coclauses_with (fun b => wc (codata_of p) cur false b) cls st = Ok (cls', st') ->
     clauses_frag cls = true -> coclauses_kd cls = true ->
     forallb (fun c => match c with FClause _ _ _ ctx body => ws (compile_ctx ctx ++ G) body end) cls = true ->
-    forallb (fun c => match c with FClause _ _ _ _ body => nocap body end) cls = true ->
     lifted_ok cp st' -> Gused G st -> incl (flat_map cl_bnd cls) (st_used_vars st) ->
     erel p cp n G (Sof (fvc cls')) e ce ->
     Co p cp n (FvNew cls e) (PCocase cls' ce).
   Proof.
-    intros N cls Hcls n Hn G cur st cls' st' e ce Hco Hfc Hkc Hwc Hncc Hl HG Hbn He.
+    intros N cls Hcls n Hn G cur st cls' st' e ce Hco Hfc Hkc Hwc Hl HG Hbn He.
     apply Co_intro. intros j Hj x args args' k kv Hargs Hdf Hk.
     pose proof (coclauses_find cur cls st cls' st' Hco x) as Hfind.
     destruct (ffind_clause cls x) as [[pl x0 names ctx body]|] eqn:Efc;
@@ -320,9 +323,9 @@ Section FLh.
     destruct (fbind (fvars ctx) args e) as [e1|] eqn:Ebind;
       [|eapply sim_stuck; simpl; unfold fselect; rewrite Efc; simpl; rewrite Ebind; reflexivity].
     eapply sim_fstep; [simpl; unfold fselect; rewrite Efc; simpl; rewrite Ebind; reflexivity|].
-    unfold clauses_frag, coclauses_kd in *. rewrite forallb_forall in Hfc, Hwc, Hncc, Hkc.
-    specialize (Hfc _ Hin). specialize (Hwc _ Hin). specialize (Hncc _ Hin). specialize (Hkc _ Hin).
-    simpl in Hfc, Hwc, Hncc, Hkc.
+    unfold clauses_frag, coclauses_kd in *. rewrite forallb_forall in Hfc, Hwc, Hkc.
+    specialize (Hfc _ Hin). specialize (Hwc _ Hin). specialize (Hkc _ Hin).
+    simpl in Hfc, Hwc, Hkc.
     apply andb_prop in Hfc. destruct Hfc as [Hfc Hfb]. apply andb_prop in Hfc. destruct Hfc as [_ Hprd].
     apply andb_prop in Hkc. destruct Hkc as [Hkb Hkx]. apply Bool.eqb_prop in Hkx.
     destruct (kinds_of_fields p cp Hcod ctx args e e1 Hdf Hprd Ebind) as [Hk1 Hk2].
@@ -362,7 +365,7 @@ Section FLh.
     unfold cvars. rewrite map_app. simpl map. fold (cvars (compile_ctx ctx)).
     rewrite (cbind_snoc_gen _ _ _ _ _ _ Hcb).
     rewrite Forall_forall in Hcls. specialize (Hcls _ Hin). simpl in Hcls.
-    apply (Hcls j ltac:(lia) (compile_ctx ctx ++ G) cur (CXVar CCns (new_id a) (compile_ty ty0)) sta' body' stb e1 ce1 k Hwb Hfb Hkb Hwc Hncc).
+    apply (Hcls j ltac:(lia) (compile_ctx ctx ++ G) cur (CXVar CCns (new_id a) (compile_ty ty0)) sta' body' stb e1 ce1 k Hwb Hfb Hkb Hwc).
     - eapply lifted_ok_grows; [exact Hl | exact Hgb].
     - intros bb Hbb. apply in_app_or in Hbb. destruct Hbb as [Hbb|Hbb].
       + destruct (Hcv (cbvar bb) (in_map cbvar _ _ Hbb)) as [y [Ey Hy]]. exists y. split; [exact Ey|].
@@ -370,8 +373,6 @@ Section FLh.
       + eapply Gused_grows; [exact HG | exact Hgall | exact Hbb].
     - intros y Hy. eapply grows_vars_incl; [exact Hgall|]. apply Hbody_bnd. exact Hy.
     - intros x0 Hx0. simpl in Hx0. destruct Hx0 as [Hx0|[]]. subst x0. exists a. split; [reflexivity|]. rewrite Hused. left. reflexivity.
-    - intros y Hy Hiny. simpl in Hiny. destruct Hiny as [Hiny|[]]. apply new_id_inj in Hiny. subst y.
-      apply Hfresh. eapply grows_vars_incl; [exact Hga|]. apply Hbody_bnd. exact Hy.
     - exact I.
     - exact Hr.
     - apply CK_covar with (kv := kv).
@@ -385,17 +386,17 @@ Section FLh.
     intros N cls ty Hcls.
     assert (Hcore : forall n, (n <= N)%nat -> forall G cur ty' st c st' e ce,
               cmp (codata_of p) cur false (FNew cls ty) ty' st = Ok (c, st') ->
-              frag p (FNew cls ty) = true -> kd p (FNew cls ty) = true -> ws G (FNew cls ty) = true -> nocap (FNew cls ty) = true ->
+              frag p (FNew cls ty) = true -> kd p (FNew cls ty) = true -> ws G (FNew cls ty) = true ->
               lifted_ok cp st' -> Gused G st -> incl (bnd (FNew cls ty)) (st_used_vars st) ->
               erel p cp n G (Sof (fvt c)) e ce ->
               exists cls' cty, c = CXCase CPrd cls' cty /\ Co p cp n (FvNew cls e) (PCocase cls' ce)).
-    { intros n Hn G cur ty' st c st' e ce Hc Hf Hkd Hws Hnc Hl HG Hbn He.
+    { intros n Hn G cur ty' st c st' e ce Hc Hf Hkd Hws Hl HG Hbn He.
       rewrite cmp_unfold in Hc. apply cmp_new_inv in Hc. destruct Hc as [cls' [ty0 [Hco [Ety Ec]]]]. subst c.
-      simpl in Hf, Hkd, Hws, Hnc. apply andb_prop in Hkd. destruct Hkd as [_ Hkc].
+      simpl in Hf, Hkd, Hws. apply andb_prop in Hkd. destruct Hkd as [_ Hkc].
       exists cls', (compile_ty ty0). split; [reflexivity|].
       eapply (new_core N cls Hcls n Hn G cur st cls' st' e ce); eauto. }
     split; [|split].
-    - intros n Hn G cur cont st s st' e ce k Hwc Hf Hkd Hws Hnc Hl HG Hbn Hni H8 Hsh He HCK.
+    - intros n Hn G cur cont st s st' e ce k Hwc Hf Hkd Hws Hl HG Hbn Hni Hsh He HCK.
       rewrite wc_unfold in Hwc. apply wc_new_inv in Hwc. destruct Hwc as [cls0 [ty0 [Hco0 [Ety0 Es]]]]. subst s ty.
       destruct (Hcore n Hn G cur CI64 st (CXCase CPrd cls0 (compile_ty ty0)) st' e ce) as [cls' [cty [Ec HCo]]]; auto.
       { rewrite cmp_unfold. unfold cmp_new, mbind. rewrite Hco0. reflexivity. }
@@ -411,10 +412,10 @@ Section FLh.
       eapply Kk_use; [exact Hk | lia | | ].
       + unfold tkind. simpl. rewrite Hkty. exact I.
       + simpl. eapply Co_mono; [exact HCo | lia].
-    - intros n Hn G cur ty' st c st' e ce k m Hc Hf Hkd Hk0 Hws Hnc Hl HG Hbn Hty He HK.
+    - intros n Hn G cur ty' st c st' e ce k m Hc Hf Hkd Hk0 Hws Hl HG Hbn Hty He HK.
       simpl in Hkd. apply andb_prop in Hkd. destruct Hkd as [Hkty _]. unfold tkind in Hk0. simpl in Hk0. congruence.
-    - intros n Hn G cur ty' st c st' e ce Hc Hf Hkd Hk1 Hws Hnc Hl HG Hbn Hty He.
-      destruct (Hcore n Hn G cur ty' st c st' e ce Hc Hf Hkd Hws Hnc Hl HG Hbn He) as [cls' [cty [Ec HCo]]]. subst c.
+    - intros n Hn G cur ty' st c st' e ce Hc Hf Hkd Hk1 Hws Hl HG Hbn Hty He.
+      destruct (Hcore n Hn G cur ty' st c st' e ce Hc Hf Hkd Hws Hl HG Hbn He) as [cls' [cty [Ec HCo]]]. subst c.
       exists (PCocase cls' ce). split; [|split; [|split; [|split]]].
       + intros m. reflexivity.
       + intros v s0 ty1. reflexivity.
@@ -451,13 +452,12 @@ Section FLh.
     flw p cp N (FDtor scrut x targs args ty).
   Proof.
     intros N scrut x targs args ty Hat0 HTs HA HT.
-    intros n Hn G cur cont st s st' e ce k Hwc Hf Hkd Hws Hnc Hl HG Hbn Hni H8 Hsh He HCK.
+    intros n Hn G cur cont st s st' e ce k Hwc Hf Hkd Hws Hl HG Hbn Hni Hsh He HCK.
     rewrite wc_unfold in Hwc. apply wc_dtor_inv in Hwc.
     destruct Hwc as [args' [st1 [sty0 [Hargs [Esty Hwscrut]]]]].
-    simpl in Hf, Hkd, Hws, Hnc.
+    simpl in Hf, Hkd, Hws.
     apply andb_prop in Hf. destruct Hf as [Hf _]. pose proof Hat0 as Hat. apply andb_prop in Hf. destruct Hf as [Hfs Hfa].
     apply andb_prop in Hws. destruct Hws as [Hws Hwa].
-    apply andb_prop in Hnc. destruct Hnc as [Hnn Hnca]. apply andb_prop in Hnn. destruct Hnn as [_ Hns].
     apply andb_prop in Hkd. destruct Hkd as [Hkd Hkx]. apply andb_prop in Hkd. destruct Hkd as [Hkd Hka].
     apply andb_prop in Hkd. destruct Hkd as [Hks Hkscrut]. apply Bool.eqb_prop in Hkx.
     assert (Hkind : tkind p (FDtor scrut x targs args ty) = dkind p x) by (unfold tkind; simpl; exact Hkx).
@@ -470,7 +470,7 @@ Section FLh.
       apply (proj2 (wc_cmp_grows (codata_of p) cur false a0)). }
     assert (Hcd : is_codata cp (compile_ty sty0) = true).
     { rewrite (is_codata_compile p cp Hcod). unfold tkind in Hkscrut. rewrite Esty in Hkscrut. exact Hkscrut. }
-    destruct (HTs n Hn G cur (compile_ty sty0) st1 c st' e ce (Hcmp _) Hfs Hks Hkscrut Hws Hns Hl) as [pv [_ [_ [Hcutd [HCo _]]]]].
+    destruct (HTs n Hn G cur (compile_ty sty0) st1 c st' e ce (Hcmp _) Hfs Hks Hkscrut Hws Hl) as [pv [_ [_ [Hcutd [HCo _]]]]].
     { eapply Gused_grows; eauto. }
     { eapply incl_grows; [|exact Hg1]. intros z Hz. apply Hbn. simpl. apply in_or_app. left. exact Hz. }
     { exact Hcd. }
@@ -488,7 +488,7 @@ Section FLh.
     destruct n as [|n1]; [apply sim_zero|].
     eapply sim_fstep; [reflexivity|]. apply sim_cstep. rewrite Hstep, start_args_eq.
     apply (args_sim p cp Hcod N args HA HT n1 ltac:(lia) true G cur st args' st1 e ce [CConsumer cont]
-             (AfDtor scrut x) (FinXtorK (new_id x) (MCutP (is_codata cp (compile_ty sty0)) c ce)) k [] [] Hargs Hfa' Hka (fun _ => Hpo) Hwa Hnca).
+             (AfDtor scrut x) (FinXtorK (new_id x) (MCutP (is_codata cp (compile_ty sty0)) c ce)) k [] [] Hargs Hfa' Hka (fun _ => Hpo) Hwa).
     - eapply lifted_ok_grows; [exact Hl|]. eapply cmp_grows. apply (Hcmp CI64).
     - exact HG.
     - intros z Hz. apply Hbn. simpl. apply in_or_app. right. exact Hz.
@@ -648,13 +648,12 @@ Section FLh.
     flw p cp N (FDtor scrut x targs args ty).
   Proof.
     intros N scrut x targs args ty Hatom Hscrut.
-    intros n Hn G cur cont st s st' e ce k Hwc Hf Hkd Hws Hnc Hl HG Hbn Hni H8 Hsh He HCK.
+    intros n Hn G cur cont st s st' e ce k Hwc Hf Hkd Hws Hl HG Hbn Hni Hsh He HCK.
     rewrite wc_unfold in Hwc. apply wc_dtor_inv in Hwc.
     destruct Hwc as [args' [st1 [sty0 [Hargs [Esty Hwscrut]]]]].
-    simpl in Hf, Hkd, Hws, Hnc.
+    simpl in Hf, Hkd, Hws.
     apply andb_prop in Hf. destruct Hf as [Hf _]. apply andb_prop in Hf. destruct Hf as [Hfs Hfa].
     apply andb_prop in Hws. destruct Hws as [Hws Hwa].
-    apply andb_prop in Hnc. destruct Hnc as [Hnn Hnca]. apply andb_prop in Hnn. destruct Hnn as [Hdisj Hns].
     apply andb_prop in Hkd. destruct Hkd as [Hkd Hkx]. apply andb_prop in Hkd. destruct Hkd as [Hkd Hka].
     apply andb_prop in Hkd. destruct Hkd as [Hks Hkscrut]. apply Bool.eqb_prop in Hkx.
     assert (Hkind : tkind p (FDtor scrut x targs args ty) = dkind p x) by (unfold tkind; simpl; exact Hkx).
@@ -677,18 +676,13 @@ Section FLh.
     eapply sim_mono; [apply (Hsrcargs (AfDtor scrut x) k [] _ n1)|lia].
     destruct n1 as [|n2]; [apply sim_zero|].
     eapply sim_fstep; [simpl; rewrite rev_append_nil_twice; reflexivity|].
-    apply (Hscrut n2 ltac:(lia) G cur dcont st1 s st' e ce (FkDtor x vals k) Hwscrut Hfs Hks Hws Hns Hl).
+    apply (Hscrut n2 ltac:(lia) G cur dcont st1 s st' e ce (FkDtor x vals k) Hwscrut Hfs Hks Hws Hl).
     - eapply Gused_grows; eauto.
     - eapply incl_grows; [|exact Hg1]. intros z Hz. apply Hbn. simpl. apply in_or_app. left. exact Hz.
     - intros z Hz. apply in_cnames_inv in Hz. destruct Hz as [bb [Hbb E]]. subst z.
       destruct (Hsrc bb Hbb) as [Hg|Hc].
       + destruct (inG_used G _ bb st HG Hg) as [y [Ey Hy]]. exists y. split; [exact Ey|]. eapply grows_vars_incl; eauto.
       + eapply names_in_grows; [exact Hni | exact Hg1 | apply in_cnames; exact Hc].
-    - intros z Hz Hin. apply in_cnames_inv in Hin. destruct Hin as [bb [Hbb E]].
-      destruct (Hsrc bb Hbb) as [Hg|Hc].
-      + destruct (inG_name _ _ _ Hg) as [y [Ey Hy]]. rewrite E in Ey. apply new_id_inj in Ey. subst y.
-        exact (disj_spec _ _ Hdisj z Hz Hy).
-      + apply (H8 z); [simpl; apply in_or_app; left; exact Hz|]. rewrite <- E. apply in_cnames. exact Hc.
     - rewrite Hkscrut. reflexivity.
     - eapply erel_weaken; [exact He | | lia]. intros z Hz. exact Hz.
     - rewrite Hkscrut. split.
@@ -773,8 +767,9 @@ Section FLh.
       + intros y ty0 chi E. discriminate E.
       + apply fl_print; assumption.
     - destruct IHt1 as [W1 [_ T1]], IHt2 as [W2 _].
-      eapply (Hdef _ (fun cur => wc_let (codata_of p) v vty (cmp (codata_of p) cur false t1) (wc (codata_of p) cur false t1)
-                                (wc (codata_of p) cur false t2))).
+      eapply (Hdef _ (fun cur => guard_capture false [v]
+                                (wc_let (codata_of p) v vty (cmp (codata_of p) cur false t1) (wc (codata_of p) cur false t1)
+                                   (wc (codata_of p) cur false t2)) ty)).
       + intros cur cont. apply wc_unfold.
       + intros cur ty0. apply cmp_unfold.
       + intros y ty0 chi E. discriminate E.
@@ -800,8 +795,9 @@ Section FLh.
       + intros y ty0 chi E. discriminate E.
       + apply fl_dtor; assumption.
     - destruct IHt as [Ws _].
-      eapply (Hdef _ (fun cur => wc_case cur (wc (codata_of p) cur false t) (fterm_type t) (List.length cls)
-                           (fun cont' => clauses_with (fun b => wc (codata_of p) cur false b) cont' cls))).
+      eapply (Hdef _ (fun cur => guard_capture false (flat_map (fun c => match c with FClause _ _ _ ctx _ => fvars ctx end) cls)
+                           (wc_case cur (wc (codata_of p) cur false t) (fterm_type t) (List.length cls)
+                              (fun cont' => clauses_with (fun b => wc (codata_of p) cur false b) cont' cls)) ty)).
       + intros cur cont. apply wc_unfold.
       + intros cur ty0. apply cmp_unfold.
       + intros y ty0 chi E. discriminate E.
